@@ -31,9 +31,19 @@ func init() {
 		Assume: tcpAssume}
 }
 
+func init() {
+	props["C13"] = PropDef{Level: "exploration", QuickS: 40, ThoroughS: 600,
+		Units: []Unit{{Name: "defrag-v4", Pkg: "./props/defrag", Sim: "c13v4", Share: 0.8}, {Name: "defrag-v6", Pkg: "./props/defrag", Sim: "c13v6", Share: 0.2}},
+		Rule: "one evaluation = one simulated run: 1-4 datagrams over 1-4 (src,dst,id) keys (header 20-60 bytes, payload 9-65515 bytes, cut at seeded multiples of 8), network reordering/duplication/loss, key reuse, a hostile injector (conflicting overlaps, holes, undersized, oversize, >8192 fragments) and DiscardOlderThan timers on the simulated clock; reference model of the received set per key checked at every call; non-trivial = at least one fault fired; distinct = distinct event-log fingerprints among non-trivial runs",
+		RealStub: "real: ip4defrag.IPv4Defragmenter, ip6defrag.IPv6Defragmenter; stub: fragmenting senders, network, clock",
+		Assume: []string{"fragments are layers.IPv4 / layers.IPv6Fragment values built field by field with Length consistent with header and payload", "IPv6: one datagram per identification; behaviour after completion is not checked", "the defragmenter may keep references to the fragments it was given (buffers are not reused by the harness)"}}
+}
+
 var probeNames = map[string][]string{
 	"c09": {"stream_crosses_wrap", "wrap_inside_delivery", "flush_forced_skip", "limit_forced_skip", "syn_overtaken_by_data", "gap_announced", "delivery_without_start", "kept_bytes_presented", "multi_page_with_saved"},
 	"c11r": {"flush_forced_skip", "limit_forced_skip"},
 	"c11t": {"flush_forced_skip", "limit_forced_skip"},
+	"c13v4": {"datagram_reassembled", "datagram_with_options_reassembled", "unfragmented_passthrough", "partial_datagram_discarded", "key_collision_mixed", "hostile_set_reassembled", "8000_fragments_reassembled"},
+	"c13v6": {"ipv6_reassembled"},
 	"c10": {"stream_crosses_wrap", "wrap_inside_delivery", "flush_forced_skip", "limit_forced_skip", "syn_overtaken_by_data", "gap_announced", "delivery_without_start"},
 }
